@@ -11,7 +11,10 @@ package main
 
 import (
 	"bytes"
+	_ "embed"
+	"encoding/json"
 	"fmt"
+	"os"
 	"reflect"
 	"strings"
 	"sync"
@@ -36,6 +39,17 @@ import (
 	"verif/ref/refsmb"
 	"verif/vf"
 )
+
+//go:embed known_repeat_classes.json
+var knownRepeatJSON []byte
+
+var knownRepeat = func() map[string][]string {
+	var m map[string][]string
+	if err := json.Unmarshal(knownRepeatJSON, &m); err != nil {
+		panic("known_repeat_classes.json: " + err.Error())
+	}
+	return m
+}()
 
 func main() { vf.Main("C03", "model_checking", run) }
 
@@ -588,6 +602,30 @@ func repeatPart(c *vf.Ctx, u *refsmb.Universe, t *smbgen.Tally) {
 			}
 			atomic.AddInt64(&objects, 1)
 			key := func(sub string) string { return "C03/repeat/" + cmd.Name + "/" + sub }
+			// Several of these obligations are known findings (findings/C03.json). A finding is identified by
+			// the input that fails: which base assignment (all-default / all-non-default) fails on the unchanged
+			// tree is committed in known_repeat_classes.json (never written at run time); a failure of the
+			// other base is a different violation and is reported under its own key.
+			baseCls := "base=zero"
+			if a.Full {
+				baseCls = "base=full"
+			}
+			rcheck := func(sub string, ok bool, wit func() string) {
+				t.Check(cmd.Name, key(sub), ok, wit)
+				if ok {
+					return
+				}
+				if os.Getenv("C03_DEBUG_CLASSES") != "" {
+					fmt.Fprintf(os.Stderr, "CLASS %s/%s x %s\n", cmd.Name, sub, baseCls)
+				}
+				known := false
+				for _, k := range knownRepeat[cmd.Name+"/"+sub] {
+					known = known || k == baseCls
+				}
+				if !known {
+					t.Check(cmd.Name, key(sub+"/input-class:"+baseCls), false, wit)
+				}
+			}
 			// apply runs op on m; sinceFresh = number of Marshal calls on the current command object before this op
 			apply := func(m *message.Message, op int, check bool, history []int, sinceFresh int, decoded bool) {
 				switch op {
@@ -605,7 +643,7 @@ func repeatPart(c *vf.Ctx, u *refsmb.Universe, t *smbgen.Tally) {
 					case decoded:
 						sub = "marshal-after-unmarshal"
 					}
-					t.Check(cmd.Name, key(sub), !p && err == nil && bytes.Equal(out, first), func() string {
+					rcheck(sub, !p && err == nil && bytes.Equal(out, first), func() string {
 						return fmt.Sprintf("Message{%s{%s}}: history [%s]: this Marshal returns %s (err=%v %s %s), the first Marshal returned %s",
 							cmd.Name, a.Label(), opNames(history), vf.HexS(out), err, msg, where, vf.HexS(first))
 					})
@@ -616,7 +654,7 @@ func repeatPart(c *vf.Ctx, u *refsmb.Universe, t *smbgen.Tally) {
 						return
 					}
 					ok := !p && err == nil && m.Command != nil && reflect.TypeOf(m.Command).Elem() == cmd.Type
-					t.Check(cmd.Name, key("unmarshal-own-encoding"), ok, func() string {
+					rcheck("unmarshal-own-encoding", ok, func() string {
 						return fmt.Sprintf("Message{%s{%s}}: history [%s]: Unmarshal(%s) = %v %s %s", cmd.Name, a.Label(), opNames(history), vf.HexS(first), err, msg, where)
 					})
 					if ok {
